@@ -1,8 +1,10 @@
 -- Root of the `Passage` library: every model, lemma and property module.
+import Passage.Props.C05
 import Passage.Props.C09
 import Passage.Props.C11
 import Passage.Props.C13
 import Passage.Props.C18
+import Passage.Driver.C05
 import Passage.Driver.C09
 import Passage.Driver.C11
 import Passage.Driver.C13
